@@ -660,9 +660,11 @@ func (v *vState) Regress(t *testing.T, exec func(c regressCase) string) {
 				continue
 			}
 			v.Eval()
+			v.Journal(t.Name(), map[string]any{"saved_input": c.Name, "fields": c.F})
 			msg := exec(c)
 			if strings.HasPrefix(msg, "skip:") {
 				v.Class("saved inputs of a kind this check does not execute")
+				v.Extra("saved_input_skipped:"+c.Name, msg)
 				continue
 			}
 			v.Class("saved inputs replayed (regress/" + v.prop + ")")
